@@ -1,6 +1,6 @@
 """C10 — configuration of the check (deductive tier under construction)."""
 PROPERTY = "C10"
-LEVEL = "other"
+LEVEL = "exploration"
 CONTRACT_MODULES = ["contracts.specfuns"]
 FUNCTIONS = []
 LEMMAS = []
